@@ -89,6 +89,7 @@ def run(ctx):
     T = M.Terms(pd)
     selfp = ("param", 1, pd.local_name(1))
     can_wait = {p for p in prog.fns if "posix::waitpid" in M.local_closure(prog, [p])}
+    can_create = {p for p in prog.fns if "popen::Popen::create" in M.local_closure(prog, [p])}
 
     # ---- R12.1 configurations of Popen::drop -----------------------------------
     n = 0
@@ -226,16 +227,45 @@ def run(ctx):
     ok = len(sc) == 1 and Te.operand(sc[0][1]["args"][0])[:2] == ("call", "builder::exec::Exec::detached")
     ctx.ob("R12.4", "Exec::communicate.detached-first", ok, ec.loc(0), "Exec::communicate must call setup_communicate on self.detached()")
     pc = prog.one("builder::pipeline::Pipeline::communicate")
-    Tp = M.Terms(pc)
-    clos = [prog.fns[c] for c in M.local_callees(prog, pc) if "{closure" in c]
-    okc = any([M.callee_str(t["f"]) for _, t in c.calls()] == ["builder::exec::Exec::detached"] for c in clos)
-    mp = pc.calls_to(lambda c: M.callee_str(c) == "std::iter::Iterator::map")
-    whole = len(mp) == 1 and M.noref(M.strip(Tp.operand(mp[0][1]["args"][0]), also=("<std::vec::Vec<T, A> as std::iter::IntoIterator>::into_iter", "std::iter::IntoIterator::into_iter"))) == ("field", ("param", 1, pc.local_name(1)), "cmds")
-    st = stores_to_field(pc, "cmds", "builder::pipeline::Pipeline")
-    sc = pc.calls_to(lambda c: M.callee_str(c) == "builder::pipeline::Pipeline::setup_communicate")
-    order = bool(st) and bool(sc) and all(dominated_by_blocks(pc, b, [x[0] for x in st]) for b, _ in sc)
-    ctx.ob("R12.4", "Pipeline::communicate.detaches-every-stage", okc and whole and order, pc.loc(0),
-           "Pipeline::communicate must map *all* cmds through Exec::detached (closure ok=%s, whole iterator=%s) and store them back before setup_communicate (%s)" % (okc, whole, order))
+    # somewhere on communicate()'s way to the spawn, *all* cmds are mapped through Exec::detached and stored back first
+    found = []
+    for p_ in sorted(M.local_closure(prog, [pc.path])):
+        f_ = prog.fns[p_]
+        if not p_.startswith("builder::pipeline::Pipeline::") or "{closure" in p_:
+            continue
+        Tp = M.Terms(f_)
+        clos = [prog.fns[c] for c in M.local_callees(prog, f_) if "{closure" in c and c.startswith(p_ + "::")]
+        okc = any([M.callee_str(t["f"]) for _, t in c.calls()] == ["builder::exec::Exec::detached"] for c in clos)
+        if not okc:
+            continue
+        mp = f_.calls_to(lambda c: M.callee_str(c) == "std::iter::Iterator::map")
+        whole = False
+        if len(mp) == 1:
+            src_ = M.noref(M.strip(Tp.operand(mp[0][1]["args"][0]), also=("<std::vec::Vec<T, A> as std::iter::IntoIterator>::into_iter", "std::iter::IntoIterator::into_iter")))
+            # self.cmds — `self` may have been rebuilt by builder calls (self = self.stderr_to(..)): only-from self
+            whole = all(a_[0] == "field" and a_[2] == "cmds" and all(l_[0] in ("param", "local") and (l_[0] == "local" or l_[1] == 1) or l_[0] == "const" or l_[0] == "call" for l_ in M.leaves(a_[1]))
+                        and any(l_ == ("param", 1, f_.local_name(1)) or l_[0] == "local" for l_ in M.leaves(a_[1])) for a_ in M.alts(src_)) \
+                and Tp.operand(mp[0][1]["args"][0])[0] == "call" and Tp.operand(mp[0][1]["args"][0])[1].endswith("into_iter")
+        st = stores_to_field(f_, "cmds", "builder::pipeline::Pipeline")
+        spawners = [(b_, t_) for b_, t_ in f_.calls() if any(n_ in can_create for n_ in M.callee_names(t_["f"]))]
+        order = bool(st) and bool(spawners) and all(dominated_by_blocks(f_, b_, [x[0] for x in st]) for b_, _ in spawners)
+        found.append((p_, whole, order))
+    ok = len(found) == 1 and found[0][1] and found[0][2]
+    ctx.ob("R12.4", "Pipeline::communicate.detaches-every-stage", ok, pc.loc(0),
+           "on the way from Pipeline::communicate to the spawn, all of self.cmds must be mapped through Exec::detached and stored back before anything is started (sites: %s)" % found)
+    # ... and only communicate(): every other terminator must keep its Popens non-detached, because it is their drop
+    # (after the explicit wait on one of them) that waits for and reaps the remaining children
+    for meth in ("builder::exec::Exec::join", "builder::exec::Exec::capture", "builder::exec::Exec::stream_stdout", "builder::exec::Exec::stream_stderr", "builder::exec::Exec::stream_stdin",
+                 "builder::pipeline::Pipeline::join", "builder::pipeline::Pipeline::capture", "builder::pipeline::Pipeline::stream_stdout", "builder::pipeline::Pipeline::stream_stdin",
+                 "builder::pipeline::Pipeline::popen", "builder::exec::Exec::popen"):
+        f_ = prog.fns.get(meth)
+        if f_ is None:
+            ctx.missing("R12.4", meth)
+            continue
+        cl = M.local_closure(prog, [meth])
+        det = [p_ for p_ in cl if p_ in ("builder::exec::Exec::detached", "popen::Popen::detach")]
+        ctx.ob("R12.4", "%s.never-detaches" % meth.split("builder::")[-1], not det, f_.loc(0),
+               "%s must not detach the processes it starts (reaches %s): its contract is that every child has exited and been reaped when it returns / when its handle is dropped" % (meth, det))
 
 
 def subterms(t):
